@@ -28,6 +28,8 @@ type memConn struct {
 	local     net.Addr
 	remote    net.Addr
 	timeouts  int // pending timeout errors to return from Read before data
+	tag       string
+	serveID   string
 }
 
 type memAddr struct{ net, s string }
